@@ -50,7 +50,7 @@ impl TSpec {
                 let inline = self
                     .fks
                     .iter()
-                    .find(|f| f.inline && f.col == i)
+                    .find(|f| f.inline && f.col == i && all[f.parent].name != self.name)
                     .map(|f| format!(" REFERENCES {} ({}) ON DELETE {} ON UPDATE {}", all[f.parent].name, all[f.parent].cols[f.pcol].0, f.on_delete.sql(), f.on_update.sql()))
                     .unwrap_or_default();
                 format!("{} {}{}{}", n, t.sql(), if self.not_null[i] { " NOT NULL" } else { "" }, inline)
@@ -65,7 +65,9 @@ impl TSpec {
         for c in &self.checks {
             parts.push(format!("CHECK ({})", c.render(&shell)));
         }
-        for f in self.fks.iter().filter(|f| !f.inline) {
+        // a FOREIGN KEY naming the table being created is refused by CREATE TABLE: self references
+        // are added by ALTER TABLE in setup_sql
+        for f in self.fks.iter().filter(|f| !f.inline && all[f.parent].name != self.name) {
             parts.push(format!(
                 "FOREIGN KEY ({}) REFERENCES {} ({}) ON DELETE {} ON UPDATE {}",
                 self.cols[f.col].0,
@@ -716,6 +718,16 @@ pub fn gen_stmt(t: &mut Tape, specs: &[TSpec], state: &[Rows], c: &DmlCfg, next_
 
 pub fn setup_sql(specs: &[TSpec]) -> Vec<String> {
     let mut v: Vec<String> = specs.iter().map(|s| s.create_sql(specs)).collect();
+    for s in specs {
+        for (k, f) in s.fks.iter().enumerate() {
+            if specs[f.parent].name == s.name {
+                v.push(format!(
+                    "ALTER TABLE {} ADD CONSTRAINT fk_self_{}_{} FOREIGN KEY ({}) REFERENCES {} ({}) ON DELETE {} ON UPDATE {}",
+                    s.name, s.name, k, s.cols[f.col].0, s.name, s.cols[f.pcol].0, f.on_delete.sql(), f.on_update.sql()
+                ));
+            }
+        }
+    }
     for s in specs {
         for k in 0..s.indexes.len() {
             v.push(s.index_sql(k));
